@@ -101,6 +101,10 @@ class StoreEngine(Engine):
             for oi, op in enumerate(procs[pi]['ops']):
                 if op.get('crash'):
                     cr = op['crash']
+                    if cr.get('when') == 'after':
+                        c = copy.deepcopy(scn)
+                        c['procs'][pi]['ops'][oi]['crash'].pop('when')
+                        yield c
                     if cr.get('tear') is not None:
                         c = copy.deepcopy(scn)
                         c['procs'][pi]['ops'][oi]['crash']['tear'] = None
